@@ -51,9 +51,9 @@ theorem step_refines {s : State} {w : List Entry} (hi : Inv s) (ha : AbsIs s w) 
     simp only [step, writesOf, List.append_nil, abs_stepWrite, Log.get_append, ha k t]
   · exact ⟨inv_stepSnapBegin hi, fun k t => by
       simp only [writesOf, List.append_nil]; rw [← ha k t]; exact abs_stepSnapBegin hi k t⟩
-  · exact ⟨inv_stepSnapStep hi, fun k t => by
+  · exact ⟨inv_touch (inv_stepSnapStep hi), fun k t => by
       simp only [writesOf, List.append_nil]; rw [← ha k t]; exact abs_stepSnapStep hi k t⟩
-  · exact ⟨inv_stepSnapTo hi _, fun k t => by
+  · exact ⟨inv_touch (inv_stepSnapTo hi _), fun k t => by
       simp only [writesOf, List.append_nil]; rw [← ha k t]; exact abs_stepSnapTo hi _ k t⟩
   · -- compact
     rename_i i j
@@ -62,9 +62,9 @@ theorem step_refines {s : State} {w : List Entry} (hi : Inv s) (ha : AbsIs s w) 
     · simp only [hv, if_true]
       exact ⟨inv_compact hi i j (validGroup_le hv), fun k t => by
         rw [← ha k t]; exact abs_compact s i j (validGroup_le hv) k t⟩
-    · simp only [hv, Bool.false_eq_true, if_false]; exact ⟨hi, ha⟩
-  · exact ⟨hi, by simpa [writesOf, step] using ha⟩
-  · exact ⟨hi, by simpa [writesOf, step] using ha⟩
+    · simp only [hv, Bool.false_eq_true, if_false]; exact ⟨inv_touch hi, ha⟩
+  · exact ⟨inv_touch hi, by simpa [writesOf, step] using ha⟩
+  · exact ⟨inv_touch hi, by simpa [writesOf, step] using ha⟩
 
 theorem writesOf_cons (op : Op) (ops : List Op) : writesOf (op :: ops) = writesOf [op] ++ writesOf ops := by
   cases op <;> simp [writesOf]
